@@ -334,7 +334,7 @@ def udpDecode (l4 : Bytes) : Option (Bytes × Bytes) :=
   if l4.length < 8 then none
   else
     let len := udpLengthField l4
-    if len ≥ 8 then some (l4.take 8, (l4.take (min len l4.length)).drop 8)
+    if len ≥ 8 then some (l4.take 8, (l4.take len).drop 8)
     else if len = 0 then some (l4.take 8, l4.drop 8)
     else none
 
@@ -370,7 +370,7 @@ def windowsTailNts (r : Rx) : Option Windows :=
 
 /-- a re-framed packet: UDP header `h` (8 bytes, length field `8 + |p|`), `f` with `|f| = |p|`
     inserted in front of a copy of the header and the authentic payload `p` -/
-def reframed (pre h f p : Bytes) : Rx := ⟨pre, h ++ f ++ h ++ p⟩
+def reframed (pre h f p : Bytes) : Rx := ⟨pre, h ++ (f ++ (h ++ p))⟩
 
 /-! ## (e) cookie flow of one exchange -/
 
